@@ -139,8 +139,9 @@ type SimReport struct {
 }
 
 func (vm *VM) Processor_execute(psc *procbuilder.SimConfig, instruct <-chan int, resp chan<- int, resultChan chan<- string, procId int) {
-	for {
-		switch <-instruct {
+	// The worker ends when Stop_processors closes its instruction channel
+	for cmd := range instruct {
+		switch cmd {
 		case 0:
 			resp <- procId
 		case 1:
@@ -298,7 +299,10 @@ func (vm *VM) EmuDriverDispatcher() {
 	// fmt.Println("EmuDriverDispatcher", vm.EmuDrivers)
 	for {
 		select {
-		case cmd := <-vm.cmdChan:
+		case cmd, ok := <-vm.cmdChan:
+			if !ok {
+				return
+			}
 			for _, ed := range vm.EmuDrivers {
 				ed.PushCommand(cmd)
 			}
@@ -320,6 +324,15 @@ func (vm *VM) Launch_processors(s *simbox.Simbox) error {
 		go vm.Processor_execute(psc, vm.send_chans[i], vm.recv_chan, vm.result_chans[i], i)
 	}
 	return nil
+}
+
+// Stop_processors ends the goroutines started by Launch_processors. It has to
+// be called once, after the last Step, by whoever launched the processors.
+func (vm *VM) Stop_processors() {
+	for _, c := range vm.send_chans {
+		close(c)
+	}
+	close(vm.cmdChan)
 }
 
 func (vm *VM) Step(sc *SimConfig) (string, error) {
